@@ -107,21 +107,40 @@ func runStopOnce(c *core.Ctx) {
 					c.Bad(key, s.Pos(), "the exit request is sent outside a runStateLock region: two Stops can both decide to send")
 					continue
 				}
-				// flag test + flag set
+				// flag test + flag set: the send is on the side of a test of a boolean field where the field is false
+				// (`if !flag {...}` or `if flag { return }`), and the field is set on that side
 				ok := false
-				for _, cd := range g.CondAtoms(func(ex ast.Expr) bool {
-					u, isU := an.Unparen(ex).(*ast.UnaryExpr)
-					return isU && u.Op == token.NOT && an.SelectedField(info, u.X) != nil
-				}) {
-					flag := an.SelectedField(info, an.Unparen(cd.(ast.Expr)).(*ast.UnaryExpr).X)
-					if !g.GuardedBy(s, cd, true) {
+				for _, blk := range g.CFG.Blocks {
+					cd, _ := g.Cond(blk)
+					if cd == nil {
+						continue
+					}
+					ex := an.Unparen(cd.(ast.Expr))
+					neg := false
+					for {
+						u, isU := ex.(*ast.UnaryExpr)
+						if !isU || u.Op != token.NOT {
+							break
+						}
+						neg = !neg
+						ex = an.Unparen(u.X)
+					}
+					flag := an.SelectedField(info, ex)
+					if flag == nil {
+						continue
+					}
+					if b, isBasic := flag.Type().Underlying().(*types.Basic); !isBasic || b.Kind() != types.Bool {
+						continue
+					}
+					falseSide := neg // the condition is true exactly when the flag is false iff it is negated
+					if !g.GuardedBy(s, cd, falseSide) {
 						continue
 					}
 					for _, set := range g.FindAtoms(func(a ast.Node) bool {
 						rhs, isSet := fieldIsAssigned(info, a, flag)
 						return isSet && isBoolConst(info, rhs, true)
 					}) {
-						if !g.GuardedBy(set, cd, true) {
+						if !g.GuardedBy(set, cd, falseSide) {
 							continue
 						}
 						if g.Dominates(set, s) {
@@ -295,7 +314,7 @@ func runCloseOnce(c *core.Ctx) {
 					"Stop closes awaitExit on the exitRequested == true side: the first Stop before Run would not release waiters and would itself wait forever")
 				set := g.FindAtoms(func(a ast.Node) bool {
 					rhs, isSet := fieldIsAssigned(info, a, exitReq)
-					return isSet && isBoolConst(info, rhs, true) && guarded(a, isReq, false)
+					return isSet && isBoolConst(info, rhs, true)
 				})
 				okSet := false
 				for _, st := range set {
